@@ -406,6 +406,12 @@ def run(ctx, name, kind, **kw):
                 for enc in ENCS:
                     all_containers(ctx, c, dom, sec1.encode_point(dom, P0, enc), "valid", c.name + "|x0", enc, True)
                 judge_object(ctx, c, dom, PointJacobi(cfp, 0, P0[1], 1, n), P0, "object.valid", c.name + "|x0")
+        # compressed (and hybrid-prefixed) keys whose x is structurally special - next to 0 and to p, (p +- 1) / 2, small cubes: the right-hand
+        # side x^3 + a x + b computed with a short-cut that skips a final reduction leaves [0, p-1] exactly there (probability ~ 2^-250 for
+        # a sampled x).  Whether each is a valid key is the validator's business (about half of them are)
+        for xs in (1, 2, 3, 4, 5, 7, p - 1, p - 2, p - 3, p - 4, p - 5, p - 7, (p - 1) // 2, (p + 1) // 2):
+            for pre in (2, 3):
+                all_containers(ctx, c, dom, bytes([pre]) + xs.to_bytes(L, "big"), "special_x", c.name + "|x%s%d" % ("p-" if xs > p // 2 + 1 else "", p - xs if xs > p // 2 + 1 else xs), "compressed", True)
         # container-level defects
         good = sec1.encode_point(dom, P, "uncompressed")
         spki = der_ref.spki(tuple(c.oid), good)
